@@ -41,6 +41,7 @@ func (x *Exec) Drive(nops int, note string) []GenOp {
 	if x.Cfg.Stats {
 		x.statsEvent()
 	}
+	x.qmisBattery()
 	x.misuseBattery(nops)
 	// close what is still open; the world must be unlocked afterwards (checked by the monitor)
 	qids := []int{}
@@ -406,8 +407,18 @@ func (x *Exec) randomOp(maxEnt int) (GenOp, bool) {
 }
 
 // maybeRegistered lets a batch use a registered filter whose definition subsumes the wanted one.
+func (x *Exec) sortedFilterIDs() []int {
+	ids := []int{}
+	for id := range x.filters {
+		ids = append(ids, id)
+	}
+	sort.Ints(ids)
+	return ids
+}
+
 func (x *Exec) maybeRegistered(o *GenOp) {
-	for id, rf := range x.filters {
+	for _, id := range x.sortedFilterIDs() {
+		rf := x.filters[id]
 		if sameStrings(rf.flt.With, o.Flt.With) && sameStrings(rf.flt.Without, o.Flt.Without) && rf.flt.Excl == o.Flt.Excl && len(o.Flt.Ft) == 0 {
 			ok := true
 			for c := range o.Flt.Qt {
@@ -518,7 +529,8 @@ func (x *Exec) randomQOpen(vs []entView, mk func(string) GenOp) GenOp {
 	}
 	o.Flt = x.randomFilter(vs, "")
 	// sometimes through a registered filter
-	for id, rf := range x.filters {
+	for _, id := range x.sortedFilterIDs() {
+		rf := x.filters[id]
 		if x.rng.Intn(2) == 0 {
 			o.F = id
 			o.Flt = rf.flt
